@@ -191,12 +191,22 @@ bool TypeChecker::isAssignableType(const Type* ty, const SyntaxNode* node, bool 
             auto tagTyDecl = tagTy->declaration();
             if (!tagTyDecl)
                 return false;
+            // A structure or union doesn't contain itself (6.7.2.1-3); in a program
+            // that is erroneous in this way, a declaration is looked into once.
+            if (std::find(openTagTyDecls_.begin(), openTagTyDecls_.end(), tagTyDecl)
+                    != openTagTyDecls_.end())
+                return true;
+            openTagTyDecls_.push_back(tagTyDecl);
+            auto isAssignable = true;
             for (const auto& membDecl : tagTyDecl->members()) {
                 auto membTy = membDecl->type();
-                if (!isAssignableType(membTy, node, true))
-                    return false;
+                if (!isAssignableType(membTy, node, true)) {
+                    isAssignable = false;
+                    break;
+                }
             }
-            return true;
+            openTagTyDecls_.pop_back();
+            return isAssignable;
         }
         default:
             return true;
